@@ -72,7 +72,8 @@ def replay_rank(ctx, metrics, cstat, c, k):
             if order == [n - 1 - o for o in obs] and abs(D) > 1e-12:
                 ctx.violation("dscore:inverse-order", "D=%r for inversely ordered forecasts" % D, dict(case, obs=obs))
         # invariances: strictly increasing maps of the observations / of all forecast values, member permutations
-        f = [np.exp, np.arctan, lambda x: x ** 3 - 5, lambda x: 2.5 * x + 7][(k + sum(perm)) % 4]
+        # (incl. a shift to magnitudes where neighbouring integers differ by less than 1e-5 relative: exact in float64)
+        f = [np.exp, np.arctan, lambda x: x ** 3 - 5, lambda x: 2.5 * x + 7, lambda x: x + 2.0 ** 24, lambda x: 4.0 * x - 2.0 ** 30][(k + sum(perm)) % 6]
         D2 = dscore(metrics, f(np.array(obs, dtype=float)), ens)
         D3 = dscore(metrics, obs, f(ens))
         D4 = dscore(metrics, obs, ens[:, ::-1])
